@@ -988,10 +988,16 @@ func (e *Engine) splitWantsCancelsDenials(p peer.ID, m bsmsg.BitSwapMessage) ([]
 			log.Debugw("Bitswap engine <- want-block", "local", e.self, "from", p, "cid", c)
 		}
 
-		// Do not take more wants that can be handled.
-		if len(wants) < int(e.maxQueuedWantlistEntriesPerPeer) {
-			wants = append(wants, et)
-		}
+		wants = append(wants, et)
+	}
+
+	// Do not take more wants than can be handled: truncate the lowest priority
+	// entries.
+	if limit := int(e.maxQueuedWantlistEntriesPerPeer); len(wants) > limit {
+		slices.SortStableFunc(wants, func(a, b bsmsg.Entry) int {
+			return cmp.Compare(b.Priority, a.Priority)
+		})
+		wants = wants[:limit]
 	}
 
 	if len(wants) == 0 {
